@@ -298,6 +298,7 @@ func (h *H) drain(done func() bool) {
 		h.ReleaseGate(g)
 	}
 	h.WithLock(func() {
+		h.NextConnOpts = nil
 		for _, c := range h.Conns {
 			c.ClearFaultsLocked()
 		}
@@ -319,6 +320,9 @@ func (h *H) drain(done func() bool) {
 		}
 		h.App.Step()
 		h.MustPoll("read routine at rest during drain", h.ReaderSettled)
+		if h.ExpireStalledRead() {
+			continue // a Read with a deadline and no input: time passes
+		}
 		if h.PollQuiet(100*time.Millisecond, func() bool { h.PollExchanges(); return done() }) {
 			return
 		}
@@ -346,17 +350,19 @@ func (h *H) pendingSummary() string {
 	return b.String()
 }
 
-// allExchangesClosed tells whether every accepted persisted publish completed.
+// allExchangesClosed tells whether every request returned and every accepted
+// persisted publish completed.
 func (h *H) allExchangesClosed() bool {
-	for _, c := range h.Calls {
-		if !h.IsDone(c) {
-			return false
+	ok := true
+	h.WithLock(func() {
+		for _, c := range h.Calls {
+			if !c.Done || (c.Exch != nil && c.Err == nil && !c.ExchDone) {
+				ok = false
+				return
+			}
 		}
-		if c.Exch != nil && c.Err == nil && !c.ExchDone {
-			return false
-		}
-	}
-	return true
+	})
+	return ok
 }
 
 // ---- wire oracle (C08 core, reused as a sanity net elsewhere) ----
@@ -585,20 +591,23 @@ func noPanics(h *H) {
 
 const quiet = 1500 * time.Microsecond
 
-// allPersistedDone tells whether every accepted persisted publish completed.
+// allPersistedDone tells whether every persisted publish returned and every
+// accepted one completed.
 func (h *H) allPersistedDone() bool {
-	for _, c := range h.Calls {
-		if c.Exch == nil && c.Meta != nil {
-			if r, ok := c.Meta.(*Req); ok && (r.Kind == "pub1" || r.Kind == "pub2") && !h.IsDone(c) {
-				return false
+	ok := true
+	h.WithLock(func() {
+		for _, c := range h.Calls {
+			r, isReq := c.Meta.(*Req)
+			if !isReq || (r.Kind != "pub1" && r.Kind != "pub2") {
+				continue
 			}
-			continue
+			if !c.Done || (c.Err == nil && !c.ExchDone) {
+				ok = false
+				return
+			}
 		}
-		if c.Exch != nil && c.Err == nil && !c.ExchDone {
-			return false
-		}
-	}
-	return true
+	})
+	return ok
 }
 
 // fataler is the part of testing.TB / rapid.T the pure checks need.
